@@ -2,6 +2,7 @@ import SparseSpace.Lemmas.QuadTensor
 import SparseSpace.Lemmas.QuadTensorDrop
 import SparseSpace.Lemmas.QuadMod
 import SparseSpace.Lemmas.QuadGauss
+import SparseSpace.Lemmas.QuadLejaBasis
 import Mathlib.Tactic.NormNum
 /-!
 # C08 — local tensor quadrature grids honour their exactness and point contracts
@@ -209,6 +210,60 @@ theorem gauss_legendre_exact_poly (ξ ω : List ℚ) (m : ℕ)
     quad (glPoints ξ s (e - s)) (glWeights ω (e - s)) (fun x => (Polynomial.derivative P).eval x) = P.eval e - P.eval s :=
   gl_affine_transport ξ ω m (contract_of_moments ξ ω m contract) s e P hP
 
+/-! ## Leja family: weights from a linear system (extension)
+
+`LejaGrid1D.compute_1D_quad_weights` returns the first row of `inv(V)`, `V[i,j] = φ_j(t_i)` with the orthonormal shifted
+Legendre polynomials `φ_j`; the reference points `t_i ∈ [0,1]` (from `fmin`, with `boundary=False`: the points kept after
+slicing) are an ARBITRARY input.  `lejaRefWeights` (Model/QuadLeja, executed by the driver op `leja` and compared with the
+implementation's weights on the implementation's own points) solves the equivalent moment system exactly and returns a
+result only with its certificate.  Contracts (not modelled): exact solve by `numpy.linalg.inv`; `eval_sh_legendre(j,·)` is
+a polynomial of degree `j` with `∫_0^1 φ_j = δ_{j0}`. -/
+
+/-- **count, sum and exactness clauses for the Leja family**: for ANY list of `n` reference points, every output `w` of
+the model's weight computation gives, on every interval `[s, s+L]` (`coords = t·L + s`, `weights = w·L`): `n` points and
+`n` weights; weights summing to the length `L`; exact moments `Σ w_i x_i^k = ∫ x^k` for all `k ≤ n−1` (nominal degree
+`n − 1`).  With `boundary=False` (after the repair) the code runs the same computation on the `n'` kept points, so this
+is exactness to degree `n' − 1` on them. -/
+theorem leja_exact (ts w : List ℚ) (h : lejaRefWeights ts = some w) (s L : ℚ) :
+    ((lejaPoints ts s L).length = ts.length ∧ (lejaWeights w L).length = ts.length)
+    ∧ (1 ≤ ts.length → (lejaWeights w L).sum = L)
+    ∧ ∀ k, k < ts.length →
+        quad (lejaPoints ts s L) (lejaWeights w L) (fun x => x ^ k) = ((s + L) ^ (k + 1) - s ^ (k + 1)) / (k + 1) :=
+  ⟨leja_lengths ts w h s L, leja_sum_weights ts w h s L, fun k hk => leja_moments ts w h s L k hk⟩
+
+/-- the same for every polynomial of degree ≤ n−1 (`Σ w_i P'(x_i) = P(s+L) − P(s)` for every `P` of degree ≤ n) -/
+theorem leja_exact_poly (ts w : List ℚ) (h : lejaRefWeights ts = some w) (s L : ℚ) (P : Polynomial ℚ)
+    (hP : P.natDegree ≤ ts.length) :
+    quad (lejaPoints ts s L) (lejaWeights w L) (fun x => (Polynomial.derivative P).eval x) = P.eval (s + L) - P.eval s :=
+  SparseSpace.Quad.leja_exact_poly ts w h s L P hP
+
+/-- boundary-off variant: the kept points are a slice `ts[lo:up]` of the reference points; the rule built on them is
+exact to degree `n' − 1`, `n'` = number of kept points -/
+theorem leja_boundary_off_exact (ts w : List ℚ) (lo up : ℕ) (h : lejaRefWeights (slice lo up ts) = some w) (s L : ℚ)
+    (k : ℕ) (hk : k < (slice lo up ts).length) :
+    quad (lejaPoints (slice lo up ts) s L) (lejaWeights w L) (fun x => x ^ k)
+      = ((s + L) ^ (k + 1) - s ^ (k + 1)) / (k + 1) :=
+  leja_moments (slice lo up ts) w h s L k hk
+
+/-- **the code's own linear system**: for ANY polynomials `φ_j` with `deg φ_j = j` (the code: orthonormal shifted Legendre),
+every `w` with `Σ_i w_i φ_j(t_i) = ∫_0^1 φ_j` for `j < n` — i.e. the first row of an exact inverse of `V[i,j] = φ_j(t_i)`
+when `∫_0^1 φ_j = δ_{j0}` — integrates EVERY polynomial of degree < n exactly on `[0,1]`, in particular it solves the
+moment system `Σ_i w_i t_i^k = 1/(k+1)` the model solves -/
+theorem leja_collocation_system_exact (φ : ℕ → Polynomial ℚ) (n : ℕ)
+    (hdeg : ∀ j, j < n → (φ j).degree = (j : WithBot ℕ)) (ts w : List ℚ)
+    (hsys : ∀ j, j < n → quad ts w (fun t => (φ j).eval t) = int01 (φ j)) :
+    (∀ p : Polynomial ℚ, p.degree < (n : WithBot ℕ) → quad ts w (fun t => p.eval t) = int01 p)
+    ∧ ∀ k, k < n → quad ts w (fun t => t ^ k) = 1 / ((k : ℚ) + 1) :=
+  ⟨fun p hp => collocation_system_exact φ n hdeg ts w hsys p hp,
+   fun k hk => collocation_system_moments φ n hdeg ts w hsys k hk⟩
+
+/-- **uniqueness for pairwise distinct points**: the system has at most one solution, so the exact-solve result of the
+code and the model's certified weights are the same vector (Vandermonde determinant) -/
+theorem leja_weights_unique (n : ℕ) (t v v' : Fin n → ℚ) (ht : Function.Injective t)
+    (h : ∀ k, k < n → quad (List.ofFn t) (List.ofFn v) (fun x => x ^ k) = 1 / ((k : ℚ) + 1))
+    (h' : ∀ k, k < n → quad (List.ofFn t) (List.ofFn v') (fun x => x ^ k) = 1 / ((k : ℚ) + 1)) : v = v' :=
+  moment_system_unique n t v v' ht h h'
+
 /-! ## non-vacuity: concrete grids meeting the hypotheses -/
 
 /-- sub-box `[3/2, 2]` of `[0, 2]`, level 3 -/
@@ -259,5 +314,13 @@ example : quadT (tensorPoints .trap [gOn, gOn]) (tensorWeights .trap [gOn, gOn])
 example : ∀ k : ℕ, k ≤ 1 → quad [0] [2] (fun t => t ^ k) = (1 - (-1) ^ (k + 1)) / ((k : ℚ) + 1) := by
   intro k hk
   rcases (show k = 0 ∨ k = 1 by omega) with h | h <;> subst h <;> norm_num [quad]
+
+/-- Leja: the model's weight computation succeeds on the 3 points `0, 1/2, 1` (Simpson's weights), and these weights
+also satisfy the code's own Legendre system (kernel evaluation of the executable model) -/
+example : lejaRefWeights [0, 1 / 2, 1] = some [1 / 6, 2 / 3, 1 / 6] := by decide +kernel
+example : codeSystemOk [0, 1 / 2, 1] [1 / 6, 2 / 3, 1 / 6] = true := by decide +kernel
+/-- … also on the 2 points kept by a boundary-off slice, and on 4 unevenly spaced points with a zero weight -/
+example : lejaRefWeights (slice 1 3 [0, 1 / 3, 1 / 2, 1]) = some [0, 1] := by decide +kernel
+example : lejaRefWeights [0, 1 / 3, 1 / 2, 1] = some [1 / 6, 0, 2 / 3, 1 / 6] := by decide +kernel
 
 end SparseSpace.C08
